@@ -145,6 +145,13 @@ func UnmarshalResource(data []byte, schema *Schema) (Resource, error) {
 	}
 
 	typ := schema.GetType(rske.Type)
+	if typ.Name == "" {
+		return nil, NewErrBadRequest(
+			"Unknown type",
+			fmt.Sprintf("%q is not a known type.", rske.Type),
+		)
+	}
+
 	res := typ.New()
 
 	res.Set("id", rske.ID)
@@ -223,6 +230,13 @@ func UnmarshalPartialResource(data []byte, schema *Schema) (*SoftResource, error
 	}
 
 	typ := schema.GetType(rske.Type)
+	if typ.Name == "" {
+		return nil, NewErrBadRequest(
+			"Unknown type",
+			fmt.Sprintf("%q is not a known type.", rske.Type),
+		)
+	}
+
 	newType := Type{
 		Name: typ.Name,
 	}
